@@ -404,8 +404,32 @@ def messages_and_records(rng):
     return message_pairs + records(rng, message_pairs)
 
 
+def kexinit_default_cookies(rng):
+    """The cookie the class chooses by itself is drawn from the process RNG, so one construction says little: 64 of them, every
+    one 16 octets (RFC 4253 7.1); the last one is compared with its reference encoding like any other KEXINIT."""
+    _, _, sub, _, alg, _, _ = _mods()
+    lists_lib, lists = [], []
+    for enum_class in [alg.SshKexAlgorithm, alg.SshHostKeyAlgorithm, alg.SshEncryptionAlgorithm, alg.SshEncryptionAlgorithm,
+                       alg.SshMacAlgorithm, alg.SshMacAlgorithm, alg.SshCompressionAlgorithm, alg.SshCompressionAlgorithm]:
+        names_lib, names = name_list(rng, enum_class)
+        lists_lib.append(names_lib)
+        lists.append(names)
+    lib = None
+    for _ in range(64):
+        lib = sub.SshKeyExchangeInit(
+            kex_algorithms=lists_lib[0], host_key_algorithms=lists_lib[1],
+            encryption_algorithms_client_to_server=lists_lib[2], encryption_algorithms_server_to_client=lists_lib[3],
+            mac_algorithms_client_to_server=lists_lib[4], mac_algorithms_server_to_client=lists_lib[5],
+            compression_algorithms_client_to_server=lists_lib[6], compression_algorithms_server_to_client=lists_lib[7])
+        if len(lib.cookie) != 16:
+            raise ValueError('the cookie the class chose has %d octets instead of 16' % len(lib.cookie))
+    wire = ref.kexinit(bytes(lib.cookie), lists + [[], []], False, 0)
+    return Pair('kexinit-default-cookie', lib, wire)
+
+
 def generate(rng, count, failures=False):
-    makers = [messages_and_records, banner, host_key_pair, host_key_pair, certificate, certificate, certificate_valued, x509_chain, certificate_renewed]
+    makers = [messages_and_records, banner, host_key_pair, host_key_pair, certificate, certificate, certificate_valued, x509_chain, certificate_renewed,
+              kexinit_default_cookies]
     produced = 0
     while produced < count:
         for maker in makers:
